@@ -86,7 +86,7 @@ TextOf(name, n) ==
 Alive(b) == b \in S.ids /\ S.bars[b].alive
 AliveBars == {b \in S.ids : S.bars[b].alive}
 NextId == Cardinality(S.ids) + 1
-NoStatic == Statics(S) = {}
+NoStatic == Statics(S) = {} /\ \A b \in S.ids : S.bars[b].alive \/ ~S.bars[b].inmp     \* no member has been dropped so far
 
 TargetName == IF Tgt = "auto" THEN (IF Hz = 0 THEN "spy" ELSE "spy_hz") ELSE Tgt
 NewOp0(name, b, tpl, fin, tw, tf) ==
@@ -106,9 +106,10 @@ OpsNow ==
     (IF ~Multi /\ S.ids = {} THEN UNION { NewOps("new", 1, t, f) : t \in Tpls, f \in Fins } ELSE {}) \cup
     (IF Multi /\ NextId <= MaxBars
        THEN UNION { NewOps("add", NextId, t, f) : t \in Tpls, f \in Fins } \cup
-            (* RESTRICTION: where an index-based insertion lands relative to static  *)
-            (* blocks of dropped bars is not specified by the property, so these are *)
-            (* generated only while no static block exists.                          *)
+            (* RESTRICTION: where an index-based insertion lands relative to dropped *)
+            (* bars (static blocks, and cleared bars the library has not reaped yet  *)
+            (* and still counts) is not specified by the property, so these are      *)
+            (* generated only while no member has been dropped.                      *)
             (IF "insert" \in MpOps /\ NoStatic
                THEN { ([idx |-> ix] @@ NewOp(nm, NextId, t, "AndLeave")) : nm \in {"insert", "insert_from_back"}, ix \in {0, 1}, t \in Tpls }
                ELSE {}) \cup
